@@ -7,6 +7,73 @@ import WowVerif.Thm.C09
 import WowVerif.Thm.C01
 namespace WowVerif.Sem
 
+/-- a built-in value is never a number: it binds no variable -/
+theorem encPrim_bind (n : String) (v : Val) (b : Bytes) (env : Env) (id : Nat) (h : encPrim n v = some b) : env.bind id v = env := by
+  cases v with
+  | nat k =>
+    unfold encPrim at h
+    cases hk : primKind n <;> simp [hk, encUpdateMask] at h
+  | _ => rfl
+
+theorem iterEnc_u32_length : ∀ (vs : List Val) (b : Bytes), iterEnc encU32V vs = some b → b.length = 4 * vs.length
+  | [], b, h => by simp [iterEnc] at h; subst h; rfl
+  | v :: vs, b, h => by
+    simp only [iterEnc] at h
+    cases h1 : encU32V v with
+    | none => simp [h1] at h
+    | some b1 =>
+      cases h2 : iterEnc encU32V vs with
+      | none => simp [h1, h2] at h
+      | some b2 =>
+        simp only [h1, h2, Option.some.injEq] at h
+        subst h
+        have l1 : b1.length = 4 := by
+          cases v with
+          | nat k => simp only [encU32V] at h1; exact encInt_length 4 .le k b1 h1
+          | _ => simp [encU32V] at h1
+        have := iterEnc_u32_length vs b2 h2
+        simp; omega
+
+theorem encUpdateMask_lo (v : Val) (b : Bytes) (h : encUpdateMask v = some b) : 9 ≤ b.length := by
+  unfold encUpdateMask at h
+  split at h
+  · rename_i masks values
+    split at h
+    · rename_i hc
+      cases h0 : encInt 1 .le masks.length with
+      | none => simp [h0] at h
+      | some c =>
+        cases h1 : iterEnc encU32V masks with
+        | none => simp [h0, h1] at h
+        | some mb =>
+          cases h2 : iterEnc encU32V values with
+          | none => simp [h0, h1, h2] at h
+          | some vb =>
+            simp only [h0, h1, h2, Option.some.injEq] at h
+            subst h
+            have lc := encInt_length 1 .le _ c h0
+            have lm := iterEnc_u32_length masks mb h1
+            have lv := iterEnc_u32_length values vb h2
+            have hm : 1 ≤ masks.length := by
+              cases masks with
+              | nil => simp [umTypeOk] at hc
+              | cons m0 ms => simp
+            have hv : 1 ≤ values.length := by
+              cases masks with
+              | nil => simp [umTypeOk] at hc
+              | cons m0 ms =>
+                have ht := hc.2
+                simp only [umTypeOk, Bool.and_eq_true] at ht
+                cases hvv : values[natOf m0 % 2 + natOf m0 / 2 % 2]? with
+                | none => simp [hvv] at ht
+                | some ty =>
+                  have := List.getElem?_eq_some_iff.mp hvv
+                  obtain ⟨hlt, _⟩ := this
+                  omega
+            simp; omega
+    · cases h
+  · cases h
+
 /-- the built-in codecs inside the semantics always emit their 4-byte terminator / count -/
 theorem encPrim_lo (L : Limits) (n : String) (v : Val) (b : Bytes) (h : encPrim n v = some b) : (leafBounds L (.prim n)).lo ≤ b.length := by
   unfold encPrim at h
@@ -42,11 +109,8 @@ theorem encPrim_lo (L : Limits) (n : String) (v : Val) (b : Bytes) (h : encPrim 
               have := encInt_length 4 .le _ c h0
               simp; omega
     | _ => simp [hk] at h
+  | updateMask => simp only [hk] at h; exact encUpdateMask_lo v b h
   | other => cases v <;> simp [hk] at h
-
-theorem encPrim_list (n : String) (v : Val) (b : Bytes) (h : encPrim n v = some b) : ∃ vs, v = .list vs := by
-  unfold encPrim at h
-  cases hk : primKind n <;> cases v <;> simp_all
 
 theorem leaf_lo (L : Limits) (l : Leaf) (v : Val) (b : Bytes) (h : encLeaf l v = some b) : (leafBounds L l).lo ≤ b.length := by
   cases l with
